@@ -341,6 +341,8 @@ def lock8b(cfg):
                 for v in e['vars']:
                     if 'init' in v:
                         inits[v['did']] = v['init']
+        from ..wsum import const_inits
+        once = const_inits(f)
         # locals bound to top()
         tops = set()
         for d, init in inits.items():
@@ -376,6 +378,9 @@ def lock8b(cfg):
             ok = e['name'] == 'rehydrate_read_lock' and bool(e.get('args')) and from_entry(e['args'][0])
             if ok:
                 a = f.strip_casts(e['args'][0])
+                for _ in range(3):   # a local copy of the version (`const auto v = e.version;`) is the same thing
+                    if isinstance(a, dict) and a.get('k') == 'ref' and a.get('vk') == 'local' and a.get('did') in once:
+                        a = f.strip_casts(once[a['did']])
                 ok = isinstance(a, dict) and a.get('k') == 'member' and a.get('name') == 'version'
             res.ob(ok, {'rule': 'LOCK-8b', 'function': sh(f.sig)[:100], 'site': fileline(e.get('loc')), 'opened_by': e['name'], 'verdict': 'discharged' if ok else 'VIOLATION'})
             if not ok:
